@@ -99,6 +99,10 @@ func initScratch() {
 }
 
 func cleanupScratch() {
+	if keepSMT && scratchDir != "" {
+		fmt.Fprintln(os.Stderr, "SMT files kept in", scratchDir)
+		return
+	}
 	if scratchDir != "" {
 		os.RemoveAll(scratchDir)
 		scratchDir = ""
